@@ -196,7 +196,11 @@ def run_case(case, ctx):
     from pyg_base import _pandas as P
     FN.update({'gt': P.gt_, 'ge': P.ge_, 'lt': P.lt_, 'le': P.le_, 'df_sum': P.df_sum, 'df_mean': P.df_mean, 'df_count': P.df_count})
     if op in ('df_sum', 'df_mean', 'df_count'):
-        st, got = ctx.call(FN[op], list(objs), join=join, columns=columns) if case.get('as_list', True) else ctx.call(FN[op], objs[0], list(objs[1:]), join=join, columns=columns)
+        arg_list = list(objs)
+        st, got = ctx.call(FN[op], arg_list, join=join, columns=columns) if case.get('as_list', True) else ctx.call(FN[op], objs[0], list(objs[1:]), join=join, columns=columns)
+        ctx.check('inputs_unmodified', len(arg_list) == len(objs) and all(a is b for a, b in zip(arg_list, objs)), lambda: '%s edited the list of operands it was given' % op)
+        scal = [m for m in ms if m[0] == 'scalar']
+        ms = [m for m in ms if m[0] != 'scalar']
         pand = [m for m in ms]
         s = set()
         for m in pand:
@@ -213,6 +217,7 @@ def run_case(case, ctx):
             colsets = sorted(set.union(*allc) if columns == 'oj' else set.intersection(*allc))
 
         def agg(vals):
+            vals = list(vals) + [float(m[1]) for m in scal]      # a scalar operand has data at every timestamp
             good = [v for v in vals if not isn(v)]
             if op == 'df_count':
                 return float(len(good))
@@ -257,7 +262,9 @@ def run_case(case, ctx):
         else:
             # list reduction, left to right
             if op in ('add', 'mul', 'min', 'max'):
-                st, got = ctx.call(FN[op], list(objs), **kw) if case.get('as_list', True) else ctx.call(FN[op], objs[0], list(objs[1:]), **kw)
+                arg_list = list(objs)
+                st, got = ctx.call(FN[op], arg_list, **kw) if case.get('as_list', True) else ctx.call(FN[op], objs[0], list(objs[1:]), **kw)
+                ctx.check('inputs_unmodified', len(arg_list) == len(objs) and all(a is b for a, b in zip(arg_list, objs)), lambda: '%s_ edited the list of operands it was given' % op)
                 acc = ms[0]
                 for m in ms[1:]:
                     acc = _as_operand(m_binary(op, acc, m, join, columns))
@@ -374,7 +381,9 @@ def gen_case(rng):
             for o in operands:
                 o['names'] = base[:k]
                 o['cols'] = (o['cols'] + o['cols'])[:k]
-        return {'op': op, 'operands': operands, 'join': rng.choice(['oj', 'oj', 'ij']), 'columns': rng.choice(['oj', 'oj', 'ij']), 'as_list': rng.random() < 0.6}
+        if kind == 'series' and rng.random() < 0.3:
+            operands.insert(rng.randrange(1, len(operands) + 1), {'k': 'scalar', 'v': rng.choice([2, 2.5, 0, -1])})
+        return {'op': op, 'operands': operands, 'join': rng.choice(['oj', 'oj', 'ij']), 'columns': rng.choice(['oj', 'oj', 'ij']), 'as_list': rng.random() < 0.6 or any(o['k'] == 'scalar' for o in operands)}
     n = 2 if op in ('pow', 'gt', 'ge', 'lt', 'le') or rng.random() < 0.7 else rng.randint(3, 4)
     kinds = [rng.choice(['series', 'series', 'frame1', 'frameN', 'frameN', 'scalar']) for _ in range(n)]
     if all(k == 'scalar' for k in kinds):
